@@ -377,14 +377,44 @@ func (c *rCase) paginationOracle(cx *Ctx, res map[int][2]string) {
 		}
 		n++
 	}
+	gap := false
+	for i, r := range res {
+		if i > n && r[0] == "ok" {
+			gap = true
+		}
+	}
+	type pend struct{ class, detail string }
+	var pending []pend
+	nextDangling := false
+	emptyDropOnly := false
+	bothDefects := false
+	fail := func(class, detail string) { pending = append(pending, pend{class, detail}) }
+	defer func() {
+		for _, p := range pending {
+			cls := p.class
+			switch {
+			case cls == "rows" && emptyDropOnly:
+				cls = "rows-empty-row-dropped"
+			case (cls == "rows" || cls == "next-entry" || cls == "page-after-gap") && longerBrowseLabel(c) && !emptyDropOnly:
+				cls = cls + "-translated-browse-label"
+			case cls == "rows" && bothDefects:
+				cls = "rows-empty-dropped-and-unrenderable-page"
+			case cls == "rows" && (gap || nextDangling):
+				cls = "rows-unrenderable-page"
+			case cls == "next-entry" && (gap || nextDangling):
+				cls = "next-entry-unrenderable-page"
+			}
+			cx.Fail("C02", cls, p.detail)
+		}
+	}()
 	// past the end: an error, never ok, never panic (checked for every rendered index >= n)
 	for i, r := range res {
 		if r[0] == "panic" {
-			cx.Fail("C02", "panic", fmt.Sprintf("page %d of %d panics: %s", i, n, r[1]))
+			fail("panic", fmt.Sprintf("page %d of %d panics: %s", i, n, r[1]))
 		}
 		if i >= n && r[0] == "ok" && i > n {
 			// an ok page after a failing one: pages are not contiguous
-			cx.Fail("C02", "page-after-gap", fmt.Sprintf("page %d renders although page %d does not", i, n))
+			fail("page-after-gap", fmt.Sprintf("page %d renders although page %d does not", i, n))
 		}
 	}
 	if n == 0 {
@@ -394,7 +424,7 @@ func (c *rCase) paginationOracle(cx *Ctx, res map[int][2]string) {
 	for i := 0; i < n; i++ {
 		out := res[i][1]
 		if !strings.HasPrefix(out, pre) {
-			cx.Fail("C02", "static-part", fmt.Sprintf("page %d does not start with the static text %q: %q", i, pre, out))
+			fail("static-part", fmt.Sprintf("page %d does not start with the static text %q: %q", i, pre, out))
 			return
 		}
 		body := out[len(pre):]
@@ -435,25 +465,70 @@ func (c *rCase) paginationOracle(cx *Ctx, res map[int][2]string) {
 			}
 		}
 		if !matched {
-			cx.Fail("C02", "static-part", fmt.Sprintf("page %d: static template text or ordinary menu missing: %q", i, out))
+			fail("static-part", fmt.Sprintf("page %d: static template text or ordinary menu missing: %q", i, out))
 			return
 		}
 		expN := c.next != nil && i < n-1
 		expP := c.prev != nil && i > 0
 		if shownNext != expN {
-			cx.Fail("C02", "next-entry", fmt.Sprintf("page %d of %d: next shown=%v expected=%v", i, n, shownNext, expN))
+			fail("next-entry", fmt.Sprintf("page %d of %d: next shown=%v expected=%v", i, n, shownNext, expN))
+			if i == n-1 && shownNext {
+				nextDangling = true
+			}
 		}
 		if shownPrev != expP {
-			cx.Fail("C02", "prev-entry", fmt.Sprintf("page %d of %d: previous shown=%v expected=%v", i, n, shownPrev, expP))
+			fail("prev-entry", fmt.Sprintf("page %d of %d: previous shown=%v expected=%v", i, n, shownPrev, expP))
 		}
 		got = append(got, strings.Split(page, "\n")...)
 	}
 	if strings.Join(got, "\x01") != strings.Join(rows, "\x01") {
-		cx.Fail("C02", "rows", fmt.Sprintf("pages 0..%d show rows %q, content rows are %q", n-1, got, rows))
+		// is the difference explained by dropped empty rows alone?
+		gi := 0
+		emptyDropOnly = true
+		for _, r := range rows {
+			if gi < len(got) && got[gi] == r {
+				gi++
+			} else if r != "" {
+				emptyDropOnly = false
+			}
+		}
+		if gi != len(got) {
+			emptyDropOnly = false
+		}
+		// rows missing at the end: is the first missing (non-empty) row one that cannot fit on a page of its own
+		// (with the browse entries)? walk the content, letting empty rows drop out
+		gj, k := 0, 0
+		dropped := false
+		for k = 0; k < len(rows) && gj < len(got); k++ {
+			if got[gj] == rows[k] {
+				gj++
+			} else if rows[k] == "" {
+				dropped = true
+			} else {
+				break
+			}
+		}
+		if !emptyDropOnly && gj == len(got) {
+			for k < len(rows) && rows[k] == "" {
+				k++
+			}
+			if k < len(rows) && n >= 1 {
+				if r, ok := res[n]; ok && r[0] != "ok" && r[0] != "panic" {
+					// pages 0..n-1 show a clean prefix of the content and page n is an error although rows remain:
+					// joinSink accepted a page (first row after a break, browse-entry reservation, uint32 wrap of the
+					// reservation, translated browse labels) that the final size check then rejects
+					nextDangling = true
+					if dropped {
+						bothDefects = true
+					}
+				}
+			}
+		}
+		fail("rows", fmt.Sprintf("pages 0..%d show rows %q, content rows are %q", n-1, got, rows))
 	}
 	// the page after the last must be an error if it was rendered
 	if r, ok := res[n]; ok && r[0] == "ok" {
-		cx.Fail("C02", "past-end", fmt.Sprintf("page %d past the end renders", n))
+		fail("past-end", fmt.Sprintf("page %d past the end renders", n))
 	}
 	if n > 1 {
 		cx.Count("paginated")
@@ -645,4 +720,15 @@ func init() {
 			return strings.Join(outs, " ")
 		},
 	}
+}
+
+// longerBrowseLabel: a browse title resolves to a label longer than the symbol itself (Menu.Sizes reserves
+// space for the symbol, not for its translation)
+func longerBrowseLabel(c *rCase) bool {
+	for _, p := range []*[2]string{c.next, c.prev} {
+		if p != nil && len(c.label(p[1])) > len(p[1]) {
+			return true
+		}
+	}
+	return false
 }
